@@ -1209,10 +1209,9 @@ fn signature(c: &Case, t: &Trace) -> String {
     s
 }
 
-pub fn exec(inp: &[u128]) -> (Vec<u128>, String, String) {
-    let Some(c) = parse(inp) else { return (vec![98], "unparsable".into(), "ok".into()) };
+/// One run of the case on its own runtime.  Err: setup failure / wall-clock limit.
+fn run_once(c: &Arc<Case>) -> Result<Trace, (Vec<u128>, String, String)> {
     let (txr, rxr) = std::sync::mpsc::channel();
-    let c = Arc::new(c);
     let c2 = c.clone();
     std::thread::spawn(move || {
         let rt = tokio::runtime::Builder::new_current_thread().enable_time().start_paused(true).build().unwrap();
@@ -1229,11 +1228,31 @@ pub fn exec(inp: &[u128]) -> (Vec<u128>, String, String) {
         let _ = txr.send(t);
         rt.shutdown_timeout(Duration::from_millis(200));
     });
-    let t = match rxr.recv_timeout(Duration::from_secs(40)) {
-        Ok(Some(t)) => t,
-        Ok(None) => return (vec![96], "setup-failed".into(), "FAIL: could not establish the connection or move a channel half".into()),
-        Err(_) => return (vec![95], "livelock".into(), "FAIL: case did not finish within 40 s of wall time".into()),
+    match rxr.recv_timeout(Duration::from_secs(50)) {
+        Ok(Some(t)) => Ok(t),
+        Ok(None) => Err((vec![96], "setup-failed".into(), "FAIL: could not establish the connection or move a channel half".into())),
+        Err(_) => Err((vec![95], "livelock".into(), "FAIL: case did not finish within 50 s of wall time".into())),
+    }
+}
+
+pub fn exec(inp: &[u128]) -> (Vec<u128>, String, String) {
+    let Some(c) = parse(inp) else { return (vec![98], "unparsable".into(), "ok".into()) };
+    let c = Arc::new(c);
+    // "no quiescence" is an observation only if it repeats: on a heavily loaded machine the barrier's
+    // wall-clock limit can strike without any livelock
+    let mut t = match run_once(&c) {
+        Ok(t) => t,
+        Err(e) => return e,
     };
+    for _ in 0..2 {
+        if !t.livelock {
+            break;
+        }
+        t = match run_once(&c) {
+            Ok(t) => t,
+            Err(e) => return e,
+        };
+    }
     if debug() {
         eprintln!("case {c:?}\nsends {:?}\nrecvs {:?}\ndrain {:?}\nticks {} complete {}", t.sends, t.recvs, t.drain, t.ticks, t.complete);
     }
